@@ -96,12 +96,12 @@ def kw_options_of(fi) -> Dict[str, str]:
     where <d> is the function's **kwargs parameter (or a dict named kwargs). name -> default text (first occurrence)."""
     kw = fi.node.args.kwarg.arg if fi.node.args.kwarg is not None else None
     names = {kw, "kwargs"} - {None}
-    out: Dict[str, str] = {}
+    out: Dict[str, set] = {}
     for n in ast.walk(fi.node):
         if isinstance(n, ast.Call) and isinstance(n.func, ast.Attribute) and n.func.attr in ("pop", "get") and isinstance(n.func.value, ast.Name) \
                 and n.func.value.id in names and len(n.args) == 2 and isinstance(n.args[0], ast.Constant) and isinstance(n.args[0].value, str):
-            out.setdefault(n.args[0].value, U(n.args[1]))
-    return out
+            out.setdefault(n.args[0].value, set()).add(UK(n.args[1]))
+    return {k: " | ".join(sorted(v)) for k, v in out.items()}
 
 
 def UK(e: ast.AST) -> str:
@@ -172,6 +172,19 @@ def atoms(test: ast.AST, decision: bool) -> List[str]:
     return [("" if decision else "not ") + canon(test)]
 
 
+def alternatives(test: ast.AST, decision: bool) -> List[List[str]]:
+    """The ways in which `test == decision` can come about, each a conjunction of atoms: a disjunction taken true (a
+    conjunction taken false) is split into its operands; everything else is the single conjunction `atoms(...)`."""
+    while isinstance(test, ast.UnaryOp) and isinstance(test.op, ast.Not):
+        test, decision = test.operand, not decision
+    if isinstance(test, ast.BoolOp) and ((isinstance(test.op, ast.Or) and decision) or (isinstance(test.op, ast.And) and not decision)):
+        out = []
+        for v in test.values:
+            out += alternatives(v, decision)
+        return out
+    return [atoms(test, decision)]
+
+
 def _terminates(stmts) -> bool:
     if not stmts:
         return False
@@ -202,13 +215,19 @@ def refusals_of(fi) -> List[dict]:
                 out.append(dict(kind="handler" if handler else ("guard" if conds else "plain"), exc=exc_name(st),
                                 conds=sorted(set(conds + ([f"<handler of {handler}>"] if handler else [])))))
             elif isinstance(st, ast.If):
-                b, e = conds + atoms(st.test, True), conds + atoms(st.test, False)
-                walk(st.body, b, handler)
-                walk(st.orelse, e, handler)
+                plain = lambda cs_: [c for c in cs_ if not c.startswith(("not all(", "any("))]   # noqa: E731
+                # only plain atoms are kept: a compound that cannot be split ("not both", "one of") would appear or not
+                # depending on whether the code tests it directly or falls through to it
+                b, e = plain(conds + atoms(st.test, True)), plain(conds + atoms(st.test, False))
+                # `if a or b: raise` refuses when a, and refuses when b: one signature per disjunct
+                for alt in alternatives(st.test, True):
+                    walk(st.body, plain(conds + alt), handler)
+                for alt in alternatives(st.test, False):
+                    walk(st.orelse, plain(conds + alt), handler)
                 if _terminates(st.body) and not (st.orelse and _terminates(st.orelse)):
-                    conds = e
+                    conds = plain(e)
                 elif st.orelse and _terminates(st.orelse) and not _terminates(st.body):
-                    conds = b
+                    conds = plain(b)
             elif isinstance(st, (ast.For, ast.While, ast.With)):
                 walk(st.body, conds, handler)
                 walk(getattr(st, "orelse", []), conds, handler)
